@@ -246,28 +246,31 @@ fn tasks_for(prop: &str, tier: &str, seed: u64) -> Vec<Task> {
                 if !thorough && c != ["secq256k1", "zorro", "curve25519"][(seed % 3) as usize] {
                     continue;
                 }
+                let nparts = if thorough { 32usize } else { 16usize };
+                for part in 0..nparts {
                 let c = c.to_string();
                 out.push(Task {
-                    name: format!("C16:enumeration:{}", c),
+                    name: format!("C16:enumeration:{}:part{}", c, part),
                     replay: serde_json::json!({"kind": "c16", "max1": m1, "max2": m2, "seed": seed}),
                     run: Box::new(move || {
-                        fn f<C: group::Base + 'static>(m1: usize, m2: usize, seed: u64, c: &str) -> Job
+                        fn f<C: group::Base + 'static>(m1: usize, m2: usize, seed: u64, c: &str, part: usize, nparts: usize) -> Job
                         where
                             C::ScalarField: field::Inner,
                         {
                             arena::reset();
-                            let mut job = Job { property: "C16".into(), scenario: format!("C16:enumeration:{}", c), curve: c.into(), seed, ..Default::default() };
-                            let (count, checks) = scen_c16::enumerate::<group::SymA<C>>(m1, m2, seed, |s| Box::new(job::SymVals::<C::ScalarField>::new(s)));
-                            job.params = serde_json::json!({"phase1_calls_up_to": m1, "phase2_calls_up_to": m2, "sequences": count, "alphabet": "commit, allocate, allocate_multiplier, multiply, constrain"});
+                            let mut job = Job { property: "C16".into(), scenario: format!("C16:enumeration:{}:part{}of{}", c, part, nparts), curve: c.into(), seed, ..Default::default() };
+                            let (count, checks) = scen_c16::enumerate_part::<group::SymA<C>>(m1, m2, seed, |s| Box::new(job::SymVals::<C::ScalarField>::new(s)), false, part, nparts);
+                            job.params = serde_json::json!({"phase1_calls_up_to": m1, "phase2_calls_up_to": m2, "sequences": count, "part": part, "of": nparts, "alphabet": "commit, commit of an equal point, allocate, allocate_multiplier, multiply, constrain", "witness_modes": "values; all zero; literals 0, 1, -1, 2, ..."});
                             for (n, ok) in checks {
                                 job.check(&n, ok, String::new());
                             }
                             job.replay = serde_json::json!({"kind": "c16", "max1": m1, "max2": m2, "seed": seed});
                             job
                         }
-                        on_curve!(c.as_str(), f, m1, m2, seed, &c)
+                        on_curve!(c.as_str(), f, m1, m2, seed, &c, part, nparts)
                     }),
                 });
+                }
             }
             out
         }
